@@ -165,7 +165,7 @@ Definition guarded_accesses : list (string * string * string * list (string * bo
   filter (fun a => match guard_of (fst (fst (fst a))) with Some _ => negb (existsb (String.eqb (snd (fst a))) constructors) | None => false end)
          lock_accesses.
 Lemma discipline_nonvacuous :
-  60 <= List.length guarded_accesses /\
+  30 <= List.length guarded_accesses /\
   forallb (fun g => existsb (fun a => String.eqb (fst (fst (fst a))) (fst (fst g))) guarded_accesses) guards = true.
 Proof. vm_compute. split; [repeat constructor|reflexivity]. Qed.
 
